@@ -1651,6 +1651,9 @@ func (x *asmRun) shutdown(r *rand.Rand) {
 				break
 			}
 			conn.Close()
+			if l, known := asmListens(os.Getpid(), k.Ports[i]); known && !l {
+				break // the port answers, but the listener is not this process's: another program drew the port we gave up
+			}
 			if time.Now().After(deadline) {
 				fail("no-new-connection-after-shutdown", fmt.Sprintf("%s listener %s still accepts connections %v after the context was cancelled", names[i], addr, time.Since(tCancel).Round(time.Millisecond)))
 				break
